@@ -225,6 +225,12 @@ def check_mapping(s3, pairs2d, find_gaps, via_adapter, info):
     alls = mapping.all_dot_brackets
     if not alls:
         out.append(D("C06:all_dot_brackets:empty", "no member"))
+    else:
+        # the mapped list is the BpSeq's list, member by member (C16 decides what that list must contain)
+        base = [d.structure for d in b.all_dot_brackets]
+        mapped = ["".join(t.split("\n")[2::3]) for t in alls]
+        if mapped != base:
+            out.append(D("C06:all_dot_brackets:differs-from-bpseq-list", f"{len(mapped)} mapped notations vs {len(base)} of the BPSEQ; first mapped {mapped[:1]}, first base {base[:1]}"))
     for t in alls[:50]:
         before = len(out)
         check_text("all_dot_brackets", t)
